@@ -271,7 +271,8 @@ Proof.
   destruct (find_trk (db_trks (fresh t)) (loc, u)); [cbn; intros H; inversion H|].
   destruct (gk_add_update_appointment (fresh t) u (loc, u) (b_len b)) as [[av|] t1|s t1]; cbn [bind];
     [|cbn; intros H; inversion H|cbn; intros H; inversion H].
-  match goal with |- context [bind ?r _] => destruct r as [[] t2|s t2] end; cbn [bind wrap]; intros H; inversion H.
+  cbv zeta. match goal with |- context [bind ?r _] => destruct r as [[] t2|s t2] end; cbn [bind wrap];
+    [match goal with |- context [if ?c then _ else _] => destruct c end|]; intros H; inversion H.
   subst. repeat split. exists u, ui. auto.
 Qed.
 
@@ -309,9 +310,9 @@ Proof.
   destruct (find_trk (db_trks (fresh t)) (loc, u)) eqn:Et; [cbn; intros H; inversion H|].
   unfold gk_add_update_appointment. rewrite Eg.
   match goal with |- context [if ?c then _ else _] => destruct c end; cbn [bind]; [|cbn; intros H; inversion H].
-  set (ui' := mk_uinfo _ _ _).
+  cbv zeta. set (ui' := mk_uinfo _ _ _).
   change (w_cache (p_set_user (fresh t) u ui')) with (w_cache t). rewrite Hc.
-  unfold w_store_appointment.
+  unfold w_store_appointment, w_store_ok.
   change (db_apps (p_set_user (fresh t) u ui')) with (db_apps t).
   change (w_height (fresh t)) with (w_height t).
   set (a := mk_app loc u b delay sig (w_height t)).
